@@ -313,6 +313,7 @@ def run(ctx):
         ctx.count("behaviours_without_host_isa", st["unhosted"])
         ctx.count("replay_workers_stopped_after_timeouts", st.get("truncated", 0))
         ctx.count("concretisation_mismatch", st["mismatch"])
+        ctx.count("replays_aborted_by_decoder_exception", st.get("aborted", 0))
         for b, c in st["branches"].items():
             br = ctx.extra.setdefault("add_vertex_branches_replayed", {})
             br[b] = br.get(b, 0) + c
